@@ -378,6 +378,38 @@ def hist_key_fields(modules):
     return [9]
 
 
+def floodfill_key(modules):
+    """FloodFillSubsetState: what the recompute test of the `mask` property compares.
+    1 = `self._mask_cache[0] != self._hash or self._mask_cache[1] is not self.data[self.att]` with _compute_mask storing
+        (self._hash, values, mask) where values = self.data[self.att]  (the parameters AND the identity of the array the attribute
+        evaluates to now);  0 = the parameters only;  9 = anything else (fail closed)"""
+    tree = modules.get('glue/core/subset.py')
+    if tree is None:
+        return 9
+    for cls in [n for n in ast.walk(tree) if isinstance(n, ast.ClassDef) and n.name == 'FloodFillSubsetState']:
+        fns = {}
+        for f in cls.body:
+            if isinstance(f, ast.FunctionDef):
+                fns.setdefault(f.name, []).append(f)
+        getter = [f for f in fns.get('mask', []) if 'property' in deco_names(f)]
+        comp = fns.get('_compute_mask', [])
+        if len(getter) != 1 or len(comp) != 1:
+            return 9
+        ifs = [n for n in ast.walk(getter[0]) if isinstance(n, ast.If)]
+        if len(ifs) != 1:
+            return 9
+        test = src(ifs[0].test).replace(' ', '')
+        ctext = src(comp[0]).replace(' ', '')
+        if test == 'self._mask_cache[0]!=self._hash':
+            return 0 if 'self._mask_cache=(self._hash,mask)' in ctext else 9
+        if (test == 'self._mask_cache[0]!=self._hashorself._mask_cache[1]isnotself.data[self.att]' and
+                'values=self.data[self.att]' in ctext and 'self._mask_cache=(self._hash,values,mask)' in ctext and
+                'floodfill(values,self.start_coords,self.threshold)' in ctext):
+            return 1
+        return 9
+    return 9
+
+
 def generate(out_path):
     fam, modules = scan()
     names = ['SubsetState'] + sorted(n for n in fam if n != 'SubsetState')
@@ -481,6 +513,9 @@ def generate(out_path):
     t.append('Definition memo_wrapper_plain : nat := %d.' % wrapper_ok)
     t.append('(* HistogramLayerState.update_histogram: fields of the cache key (1 id(x_att) 2 x_log 3 hist_x_min 4 hist_x_max 5 hist_n_bin 9 other) *)')
     t.append('Definition hist_key_fields : list nat := [%s].' % '; '.join(str(k) for k in hist_key_fields(modules)))
+    t.append('(* FloodFillSubsetState.mask recomputes when: 1 = the parameters differ OR data[att] is not the array the mask was computed from;')
+    t.append('   0 = the parameters differ (values never looked at); 9 = some other test *)')
+    t.append('Definition floodfill_key : nat := %d.' % floodfill_key(modules))
     t.append('Definition find_policy (p : nat) : option (nat * nat * bool) := find (fun r => Nat.eqb (fst (fst r)) p) path_policy.')
     t.append('Definition scope_of (p : nat) : option nat := match find_policy p with Some r => Some (snd (fst r)) | None => None end.')
     t.append('Definition before_of (p : nat) : bool := match find_policy p with Some r => snd r | None => true end.')
